@@ -46,9 +46,9 @@ def gen_positions(rng, n, model, lo=0.0, hi=1000.0):
     raise ValueError(model)
 
 
-def gen_case(rng, max_n=200):
+def gen_case(rng, max_n=200, heavy_ok=False):
     """Return (labels, options, tag)."""
-    n = rng.choice([1, 2, 3, 5, 8, 15, 30, 60, 120, 200])
+    n = rng.choice([1, 2, 3, 5, 8, 15, 30, 60] * 3 + [120, 120, 200])
     n = min(n, max_n)
     r = rng.random()
     spacing = rng.choice([0, 1, 3, 3, 3, 7.5])
@@ -78,6 +78,12 @@ def gen_case(rng, max_n=200):
     opts["density"] = rng.choice([0.3, 0.75, 0.85, 0.85, 1])
     opts["stubWidth"] = rng.choice([0, 1, 1, 4])
     opts["algorithm"] = rng.choice(["overlap", "overlap", "simple", "none"])
+    if opts["algorithm"] == "overlap" and "maxPos" in opts and model in ("clusters", "ties") and n > 60:
+        # the layering step itself is quadratic per layer on heavily overlapping sets (26 s for 200 labels):
+        # keep those for the thorough tier, and rarely
+        if not heavy_ok or rng.random() < 0.8:
+            labels = labels[:60]
+            n = 60
     if rng.random() < 0.08 and n >= 3 and "maxPos" in opts:
         # a label wider than the whole layer
         labels[rng.randrange(n)]["w"] = float(opts["maxPos"]) + 50
